@@ -20,7 +20,7 @@ THEOREMS = ["C20_fresh", "C20_fresh_operator", "C20_invariant", "C20_fresh_refut
 KNOWN_TAG = "library_folders-change-not-invalidating"
 
 # must agree with vlib/impl/c20.py FILES
-FILE_IDS = {0: [0, 1, 2, 3], 1: [0, 1, 2], 2: [0, 1]}
+FILE_IDS = {0: [0, 1, 2, 3, 4], 1: [0, 1, 2, 3], 2: [0, 1, 2]}
 MODEL_KEYS = {"library_folders": 0, "verbose": 1, "mtime_check": 3, "cache": 4, "codegen": 5, "expand_mx": 6}
 
 
@@ -264,10 +264,11 @@ def gen_history(rng, maxops, stream):
     present = {(0, 0)}
     libs0 = rng.choice([[1], [1], [1], [2], [1, 2]])
     for lf in (1, 2):
-        if rng.random() < (0.9 if lf in libs0 else 0.6):
+        if rng.random() < (0.8 if lf in libs0 else 0.6):
             files0.append([lf, 0, clock - rng.randint(0, 50), fresh()])
             present.add((lf, 0))
-    for (fo, fi) in [(0, 2), (1, 1), (2, 1)]:
+    # (0,4), (1,3): below a symlinked directory; (2,2): a symlinked file
+    for (fo, fi) in [(0, 2), (1, 1), (2, 1), (0, 4), (1, 3), (2, 2)]:
         if rng.random() < 0.25:
             files0.append([fo, fi, clock - rng.randint(0, 50), fresh()])
             present.add((fo, fi))
@@ -395,6 +396,13 @@ def directed(tab):
                       ["opts", {"cache": False, "library_folders": [1]}], ["transfer", 1004], ["opts", o], ["transfer", 1005]]})
     H.append({"stream": "optout", "ops": [["transfer", 1001], ["opts", dict(o, mtime_check=False)], ["transfer", 1002],
                                           ["edit", 0, 0, 1003, 4], ["transfer", 1004], ["opts", o], ["transfer", 1005]]})
+    # sources reached through a symlinked directory (model folder, library folder) or a symlinked file
+    H.append({"files0": f + [[0, 4, 990, 5]], "ops": [["transfer", 1001], ["edit", 0, 4, 1002, 6], ["transfer", 1003], ["transfer", 1004]]})
+    H.append({"ops": [["transfer", 1001], ["add", 0, 4, 1002, 6], ["transfer", 1003]]})
+    H.append({"files0": [[0, 0, 990, 1], [1, 3, 990, 2]], "ops": [["transfer", 1001], ["edit", 1, 3, 1002, 6], ["transfer", 1003]]})
+    H.append({"files0": [[0, 0, 990, 1]], "ops": [["transfer", 1001], ["add", 1, 3, 1002, 6], ["transfer", 1003], ["edit", 1, 3, 1004, 7], ["transfer", 1005]]})
+    H.append({"files0": [[0, 0, 990, 1], [2, 2, 990, 2]], "opts0": dict(o, library_folders=[2]),
+              "ops": [["transfer", 1001], ["edit", 2, 2, 1002, 6], ["transfer", 1003]]})
     # platform change: pickled caches are portable, code-generated ones are not
     H.append({"ops": [["transfer", 1001], ["os", 1], ["transfer", 1002], ["os", 0], ["transfer", 1003]]})
     cg = {"codegen": True, "library_folders": [1]}
